@@ -71,7 +71,7 @@ class FortranRegularExpressions:
         I,
     )
     TYPE_DEF: Pattern = compile(r"[ ]*(TYPE)[, :]+", I)
-    EXTENDS: Pattern = compile(r"EXTENDS[ ]*\((\w*)\)", I)
+    EXTENDS: Pattern = compile(r"EXTENDS[ ]*\([ ]*(\w*)[ ]*\)", I)
     GENERIC_PRO: Pattern = compile(
         r"[ ]*(GENERIC)[, ]*(PRIVATE|PUBLIC)?[ ]*::[ ]*[a-z]", I
     )
@@ -96,7 +96,7 @@ class FortranRegularExpressions:
     )
     PARAMETER_VAL: Pattern = compile(r"\w*[\s\&]*=(([\s\&]*[\w\.\-\+\*\/\'\"])*)", I)
     TATTR_LIST: Pattern = compile(
-        r"[ ]*,[ ]*(PUBLIC|PRIVATE|ABSTRACT|EXTENDS\(\w*\))", I
+        r"[ ]*,[ ]*(PUBLIC|PRIVATE|ABSTRACT|EXTENDS[ ]*\([ ]*\w*[ ]*\))", I
     )
     VIS: Pattern = compile(r"[ ]*\b(PUBLIC|PRIVATE)\b", I)
     WORD: Pattern = compile(r"[a-z_][\w\$]*", I)
